@@ -725,8 +725,84 @@ def utils_stream(ctx, n, compare=True):
     batch.finish()
 
 
+def history_stream(ctx, n):
+    """statistics recomputed on a profile object that was EDITED in place between two calls (same number of voters): the second
+    answer must be the one a freshly built profile with the edited ballots gives (nothing remembered from the first call)"""
+    import pabutools.analysis as A
+    import pabutools.analysis.votersatisfaction as VS
+
+    rng = ctx.rng
+    for _ in range(n):
+        case = core.gen_election(rng, btypes=("app", "app", "card", "ord"), m_lo=2, m_hi=5, n_hi=6)
+        if len(case.ballots) < 2:
+            continue
+        names = [nm for nm, _ in case.projects]
+        new_ballot = core.gen_ballots(rng, case.btype, names, 1, 1)[0]
+        i = rng.randrange(len(case.ballots))
+        inst, projs = core.build_instance(case)
+        P = core.build_profile(case, inst, projs)
+        edited = list(case.ballots)
+        edited[i] = new_ballot
+        case2 = Case(case.projects, case.budget, case.btype, edited, case.seed)
+        fresh = core.build_profile(case2, inst, projs)
+        alloc = [projs[x] for x in core.gen_init(rng, case)]
+        sat = core.sat_class(rng.choice(core.SAT_BY_TYPE[case.btype]))
+        calls = [("avg_ballot_length", lambda p: A.avg_ballot_length(inst, p)), ("median_ballot_length", lambda p: A.median_ballot_length(inst, p)),
+                 ("avg_ballot_cost", lambda p: A.avg_ballot_cost(inst, p)), ("median_ballot_cost", lambda p: A.median_ballot_cost(inst, p)),
+                 ("avg_satisfaction", lambda p: A.avg_satisfaction(inst, p, alloc, sat)),
+                 ("gini_coefficient_of_satisfaction", lambda p: A.gini_coefficient_of_satisfaction(inst, p, alloc, sat)),
+                 ("percent_positive_satisfaction", lambda p: VS.percent_positive_satisfaction(p, alloc, sat))]
+        if case.btype == "app":
+            calls += [("avg_approval_score", lambda p: A.avg_approval_score(inst, p)), ("median_approval_score", lambda p: A.median_approval_score(inst, p))]
+        if case.btype == "card":
+            calls += [("avg_total_score", lambda p: A.avg_total_score(inst, p)), ("median_total_score", lambda p: A.median_total_score(inst, p))]
+        try:
+            first = {nm: f(P) for nm, f in calls}
+            P[i] = fresh[i]
+            second = {nm: f(P) for nm, f in calls}
+            want = {nm: f(fresh) for nm, f in calls}
+        except Exception as e:  # noqa: BLE001
+            ctx.violations.append({"what": f"statistic raised {e!r} in an edit history", "case": case.to_json(), "cfg": {"kind": "history"}, "sig": {"call": "history", "err": type(e).__name__}})
+            continue
+        ctx.evaluations += 1
+        ctx.count("history", case.btype)
+        for nm in second:
+            a, b = second[nm], want[nm]
+            same = (abs(float(a) - float(b)) <= 1e-9 * max(1.0, abs(float(b)))) if isinstance(a, float) or isinstance(b, float) else core.toF(a) == core.toF(b)
+            if not same:
+                ctx.violations.append({"what": f"{nm} on a profile edited in place (voter {i} replaced) gives {a}, a freshly built profile with the same ballots gives {b}",
+                                       "case": case2.to_json(), "cfg": {"kind": "history", "call": nm, "edited_voter": i, "original": case.to_json()},
+                                       "impl": str(a), "expected": str(b), "sig": {"call": nm, "history": True}})
+        if any(str(first[k]) != str(second[k]) for k in first):
+            ctx.nontrivial.add("hist" + case.key() + str(i))
+
+
+def replay_history(payload):
+    """first call on the original profile, edit voter i in place, second call; compared with a freshly built edited profile"""
+    import pabutools.analysis as A
+
+    cfg = payload["cfg"]
+    case2 = Case.from_json(payload["case"])
+    case = Case.from_json(cfg["original"])
+    i = cfg["edited_voter"]
+    inst, projs = core.build_instance(case)
+    P = core.build_profile(case, inst, projs)
+    fresh = core.build_profile(case2, inst, projs)
+    nm = cfg["call"]
+    f = getattr(A, nm, None)
+    if f is None or nm in ("avg_satisfaction", "gini_coefficient_of_satisfaction"):
+        return True, "replay of this statistic needs the allocation of the original run; not stored"
+    f(inst, P)
+    P[i] = fresh[i]
+    a, b = f(inst, P), f(inst, fresh)
+    if str(a) != str(b):
+        return False, f"still fails: {nm} gives {a} on the edited object and {b} on a fresh one"
+    return True, "edited and fresh profiles agree"
+
+
 def run(ctx):
     ctx.rule = RULE
+    history_stream(ctx, ctx.scale(400, 3000))
     election_stream(ctx, ctx.scale(400, 4000))
     category_stream(ctx, ctx.scale(250, 2500))
     utils_stream(ctx, ctx.scale(400, 4000))
@@ -760,6 +836,8 @@ def replay(payload):
     batch = Batch(ctx, compare=False)
     case = Case.from_json(payload["case"]) if payload.get("case") else None
     kind = cfg.get("kind")
+    if kind == "history":
+        return replay_history(payload)
     if kind == "inst":
         check_instance(batch, case, {"kind": "inst"})
     elif kind == "prof":
